@@ -3594,7 +3594,10 @@ impl XmlText {
     }
 
     fn check(value: &str) -> error::Result<bool> {
-        let (rest, content) = xml_parser::content(value)?;
+        // `]]>` is ordinary text data (its `>` is written as a reference); the CharData
+        // production would refuse it, so it is taken out before asking the parser.
+        let value = value.replace("]]>", "]] ");
+        let (rest, content) = xml_parser::content(value.as_str())?;
         Ok(rest.is_empty() && content.children.is_empty())
     }
 
